@@ -46,12 +46,16 @@ def make(kind, N, par=None):
     import pyPRISM.omega as O
     with warnings.catch_warnings():
         warnings.simplefilter('ignore')
+        # parameters the way users type them: the chain length as int or float, lengths as float or int
+        n_arg = float(N) if N % 3 == 0 else N
+        sig = 1 if N % 2 == 0 else 1.1
         if kind == 'Gaussian':
-            return O.Gaussian(sigma=1.1, length=N), {'sigma': 1.1, 'scale': 1.1}
+            return O.Gaussian(sigma=sig, length=n_arg), {'sigma': float(sig), 'scale': float(sig)}
         if kind == 'FreelyJointedChain':
-            return O.FreelyJointedChain(length=N, l=0.9), {'l': 0.9, 'scale': 0.9}
+            bl = 1 if N % 2 == 0 else 0.9
+            return O.FreelyJointedChain(length=n_arg, l=bl), {'l': float(bl), 'scale': float(bl)}
         if kind == 'GaussianRing':
-            return O.GaussianRing(sigma=1.1, length=N), {'sigma': 1.1, 'scale': 1.1}
+            return O.GaussianRing(sigma=sig, length=N), {'sigma': float(sig), 'scale': float(sig)}
         if kind == 'SingleSite':
             return O.SingleSite(), {'scale': 1.0}
         if kind == 'NoIntra':
